@@ -108,102 +108,165 @@ func c03(c *Ctx) {
 				"equal on every representative point", "checkKeyRemain "+diff+" (a key with that character is accepted by ParseTraceState and re-injected)")
 		}
 	}
-	// first characters
-	for _, sp := range []struct {
-		fn   string
-		spec func(int64) bool
-		what string
-	}{{"checkKeyPart", lc, "lcalpha"}, {"checkKeyTenant", func(p int64) bool { return lc(p) || dg(p) }, "lcalpha / DIGIT"}} {
-		fn := c.Fn(tx, "R1", sp.fn)
-		if fn == nil {
-			continue
-		}
-		key := fn.Obj.Type().(*types.Signature).Params().At(0)
-		// subject: key[0] or a variable defined from key[0]
-		var subjVar types.Object
-		inspectNoLit(fn.Body(), func(n ast.Node) bool {
-			if as, ok := n.(*ast.AssignStmt); ok && len(as.Lhs) == 1 && len(as.Rhs) == 1 {
-				if ie, ok := unparen(as.Rhs[0]).(*ast.IndexExpr); ok && sameVar(tinfo, ie.X, key) {
-					if z, isC := constInt(tinfo, ie.Index); isC && z == 0 {
-						subjVar = objOf(tinfo, as.Lhs[0])
+	// key parts, judged at the calls checkKey makes: simple-key (no "@"), tenant-id and system-id (around the "@"). Each call
+	// names the checker, the remainder bound and — when the checker takes the first-character predicate as a parameter — that
+	// predicate; the checker's body is evaluated with its parameters bound to what this call passes.
+	if fn := c.Fn(tx, "R1", "checkKey"); fn != nil {
+		keyParam := fn.Obj.Type().(*types.Signature).Params().At(0)
+		var tenantV, systemV types.Object
+		inspectNoLit(fn.Body(), func(nd ast.Node) bool {
+			if as, ok := nd.(*ast.AssignStmt); ok && len(as.Lhs) == 3 && len(as.Rhs) == 1 {
+				if call, ok := unparen(as.Rhs[0]).(*ast.CallExpr); ok && isCallTo(tinfo, call, "strings.Cut") && len(call.Args) == 2 && sameVar(tinfo, call.Args[0], keyParam) {
+					if s, isS := constString(tinfo, call.Args[1]); isS && s == "@" {
+						tenantV, systemV = objOf(tinfo, as.Lhs[0]), objOf(tinfo, as.Lhs[1])
 					}
 				}
 			}
 			return true
 		})
-		consts := map[int64]bool{}
-		tx.intConstsIn(fn, map[*FuncInfo]bool{}, consts)
-		diff, n := charSetDiff(charPoints(consts, types.Typ[types.Uint8]), func(p int64) (bool, bool) {
-			pe2 := &predEval{ix: tx, extra: func(e ast.Expr) (constant.Value, bool) {
-				if ie, ok := e.(*ast.IndexExpr); ok && sameVar(tinfo, ie.X, key) {
-					if z, isC := constInt(tinfo, ie.Index); isC && z == 0 {
-						return constant.MakeInt64(p), true
+		type roleSpec struct {
+			name, what string
+			subject    types.Object
+			spec       func(int64) bool
+			bound      int64
+		}
+		roles := []roleSpec{
+			{"simple-key", "lcalpha", keyParam, lc, 255},
+			{"tenant-id", "lcalpha / DIGIT", tenantV, func(p int64) bool { return lc(p) || dg(p) }, 240},
+			{"system-id", "lcalpha", systemV, lc, 13},
+		}
+		remain := tx.Func("checkKeyRemain")
+		for _, role := range roles {
+			keyOb := "trace|checkKey|" + role.name
+			var calls []*ast.CallExpr
+			if role.subject != nil {
+				inspectNoLit(fn.Body(), func(nd ast.Node) bool {
+					if call, ok := nd.(*ast.CallExpr); ok && len(call.Args) >= 1 && sameVar(tinfo, call.Args[0], role.subject) {
+						if h := tx.declByObj(callee(tinfo, call)); h != nil && h != fn {
+							calls = append(calls, call)
+						}
+					}
+					return true
+				})
+			}
+			if len(calls) != 1 {
+				c.Undecided("R1", keyOb+": checked by one call", at(tx.M, fn.Pos()), itoa(len(calls))+" calls of a package function on this part of the key (one confirmed by reading)")
+				continue
+			}
+			call := calls[0]
+			h := tx.declByObj(callee(tinfo, call))
+			c.Analysed(h)
+			hs := h.Obj.Type().(*types.Signature)
+			part := hs.Params().At(0)
+			var nparam *types.Var
+			var bound int64 = -1
+			funcs := map[types.Object]*FuncInfo{}
+			for i := 1; i < len(call.Args) && i < hs.Params().Len(); i++ {
+				p := hs.Params().At(i)
+				if v, isC := constInt(tinfo, call.Args[i]); isC {
+					if b, isB := p.Type().Underlying().(*types.Basic); isB && b.Info()&types.IsInteger != 0 {
+						nparam, bound = p, v
 					}
 				}
-				return nil, false
-			}}
-			bind := map[types.Object]constant.Value{}
-			if subjVar != nil {
-				bind[subjVar] = constant.MakeInt64(p)
-			}
-			env := pe2.bindEnv(bind)
-			rejected := false
-			inspectNoLit(fn.Body(), func(nd ast.Node) bool {
-				var exprs []ast.Expr
-				switch s := nd.(type) {
-				case *ast.AssignStmt:
-					exprs = s.Rhs
-				case *ast.ReturnStmt:
-					exprs = s.Results
+				if _, isSig := p.Type().Underlying().(*types.Signature); isSig {
+					if f, isF := objOf(tinfo, call.Args[i]).(*types.Func); isF {
+						if d := tx.declByObj(f); d != nil && !assignedIn(tinfo, h.Body(), p) {
+							funcs[p] = d
+						}
+					}
 				}
-				for _, e := range exprs {
-					if tv, ok := tinfo.Types[e]; ok && tv.Value == nil {
-						if b, ok := tv.Type.Underlying().(*types.Basic); ok && b.Info()&types.IsBoolean != 0 {
-							if v, known := evalConst(tinfo, e, env); known && !constant.BoolVal(v) {
-								rejected = true
-							}
+			}
+			c.Check(bound == role.bound, "R1", keyOb+": remainder bound "+itoa(int(role.bound)), at(tx.M, call.Pos()), exprStr(call),
+				"tracestate key length bounds differ from the W3C grammar ("+role.name+": "+itoa(int(bound))+")")
+			// first character: h's body with part[0] = p
+			var subjVar types.Object
+			inspectNoLit(h.Body(), func(n ast.Node) bool {
+				if as, ok := n.(*ast.AssignStmt); ok && len(as.Lhs) == 1 && len(as.Rhs) == 1 {
+					if ie, ok := unparen(as.Rhs[0]).(*ast.IndexExpr); ok && sameVar(tinfo, ie.X, part) {
+						if z, isC := constInt(tinfo, ie.Index); isC && z == 0 {
+							subjVar = objOf(tinfo, as.Lhs[0])
 						}
 					}
 				}
 				return true
 			})
-			return !rejected, true
-		}, sp.spec)
-		c.Check(diff == "", "R1", "trace|"+sp.fn+"|first key character = "+sp.what+" ("+itoa(n)+" points)", at(tx.M, fn.Pos()), "equal on every byte", sp.fn+" "+diff)
-		// len(key[1:]) <= n
-		nparam := fn.Obj.Type().(*types.Signature).Params().At(1)
-		okLen := false
-		inspectNoLit(fn.Body(), func(nd ast.Node) bool {
-			if be, ok := nd.(*ast.BinaryExpr); ok {
-				l, op, r, good := cmpNorm(be, 1)
-				if good && op == token.LEQ && sameVar(tinfo, r, nparam) {
-					if call, ok := l.(*ast.CallExpr); ok && builtinName(tinfo, call) == "len" {
-						if se, ok := unparen(call.Args[0]).(*ast.SliceExpr); ok && sameVar(tinfo, se.X, key) && se.High == nil {
-							if lo, isC := constInt(tinfo, se.Low); isC && lo == 1 {
-								okLen = true
+			consts := map[int64]bool{}
+			tx.intConstsIn(h, map[*FuncInfo]bool{}, consts)
+			for _, d := range funcs {
+				tx.intConstsIn(d, map[*FuncInfo]bool{}, consts)
+			}
+			diff, n := charSetDiff(charPoints(consts, types.Typ[types.Uint8]), func(p int64) (bool, bool) {
+				pe2 := &predEval{ix: tx, funcs: funcs, extra: func(e ast.Expr) (constant.Value, bool) {
+					if ie, ok := e.(*ast.IndexExpr); ok && sameVar(tinfo, ie.X, part) {
+						if z, isC := constInt(tinfo, ie.Index); isC && z == 0 {
+							return constant.MakeInt64(p), true
+						}
+					}
+					return nil, false
+				}}
+				bind := map[types.Object]constant.Value{}
+				if subjVar != nil {
+					bind[subjVar] = constant.MakeInt64(p)
+				}
+				env := pe2.bindEnv(bind)
+				rejected := false
+				inspectNoLit(h.Body(), func(nd ast.Node) bool {
+					var exprs []ast.Expr
+					switch s := nd.(type) {
+					case *ast.AssignStmt:
+						exprs = s.Rhs
+					case *ast.ReturnStmt:
+						exprs = s.Results
+					}
+					for _, e := range exprs {
+						if tv, ok := tinfo.Types[e]; ok && tv.Value == nil {
+							if b, ok := tv.Type.Underlying().(*types.Basic); ok && b.Info()&types.IsBoolean != 0 {
+								if v, known := evalConst(tinfo, e, env); known && !constant.BoolVal(v) {
+									rejected = true
+								}
 							}
 						}
 					}
-				}
-			}
-			return true
-		})
-		c.Check(okLen, "R1", "trace|"+sp.fn+"|len(key[1:]) <= n", at(tx.M, fn.Pos()), "length bound applies to the remainder", "key length bound changed")
-	}
-	if fn := c.Fn(tx, "R1", "checkKey"); fn != nil {
-		got := map[string]int64{}
-		inspectNoLit(fn.Body(), func(nd ast.Node) bool {
-			if call, ok := nd.(*ast.CallExpr); ok && len(call.Args) == 2 {
-				if cf := callee(tinfo, call); cf != nil {
-					if v, isC := constInt(tinfo, call.Args[1]); isC {
-						got[cf.Name()+"("+exprStr(call.Args[0])+")"] = v
+					return true
+				})
+				return !rejected, true
+			}, role.spec)
+			c.Check(diff == "", "R1", keyOb+": first character = "+role.what, at(tx.M, call.Pos()), h.Name+", equal on every byte ("+itoa(n)+" points)", role.name+": "+h.Name+" "+diff)
+			// len(part[1:]) <= n, and the remainder goes through checkKeyRemain
+			hg := tx.FG(h)
+			isRest := func(e ast.Expr) bool {
+				e = unparen(e)
+				if id, isID := e.(*ast.Ident); isID {
+					if def := hg.LocalDef(tinfo.Uses[id]); def != nil {
+						e = unparen(def)
 					}
 				}
+				se, ok := e.(*ast.SliceExpr)
+				if !ok || !sameVar(tinfo, se.X, part) || se.High != nil {
+					return false
+				}
+				lo, isC := constInt(tinfo, se.Low)
+				return isC && lo == 1
 			}
-			return true
-		})
-		c.Check(got["checkKeyPart(key)"] == 255 && got["checkKeyTenant(tenant)"] == 240 && got["checkKeyPart(system)"] == 13, "R1", "trace|checkKey|bounds 255 / 240 / 13", at(tx.M, fn.Pos()),
-			"simple key ≤ 256, tenant ≤ 241, system ≤ 14 characters", "tracestate key length bounds differ from the W3C grammar")
+			okLen, okRemain := false, false
+			inspectNoLit(h.Body(), func(nd ast.Node) bool {
+				switch x := nd.(type) {
+				case *ast.BinaryExpr:
+					l, op, r, good := cmpNorm(x, 1)
+					if good && op == token.LEQ && nparam != nil && sameVar(tinfo, r, nparam) {
+						if lc, ok := l.(*ast.CallExpr); ok && builtinName(tinfo, lc) == "len" && isRest(lc.Args[0]) {
+							okLen = true
+						}
+					}
+				case *ast.CallExpr:
+					if remain != nil && callToDecl(tinfo, remain)(x) && len(x.Args) == 1 && isRest(x.Args[0]) {
+						okRemain = true
+					}
+				}
+				return true
+			})
+			c.Check(okLen && okRemain, "R1", keyOb+": len(part[1:]) <= n and the remainder is checked", at(tx.M, h.Pos()), h.Name+": length bound and character check apply to the remainder", "key length bound changed (or the remainder is no longer checked)")
+		}
 	}
 	if fn := c.Fn(tx, "R1", "checkValue"); fn != nil {
 		g := tx.FG(fn)
@@ -313,7 +376,32 @@ func c03(c *Ctx) {
 		nOK := 0
 		for _, x := range g.Nodes {
 			rs, ok := x.N.(*ast.ReturnStmt)
-			if !ok || len(rs.Results) != 2 || !isNilIdent(tinfo, rs.Results[1]) {
+			if !ok || len(rs.Results) != 2 {
+				continue
+			}
+			if !isNilIdent(tinfo, rs.Results[1]) {
+				// `return id, err` with err the result of a declared helper that fills the id: success is the helper's nil return,
+				// judged there with the helper's parameters bound to this call's arguments
+				if ev, isV := objOf(tinfo, rs.Results[1]).(*types.Var); isV && !ev.IsField() {
+					if nn, _ := g.DominatedByEdges(x, func(e *GEdge) bool {
+						return edgeImplies(e, func(cnd ast.Expr, pol int) bool {
+							isNN, ok := nilCmp(tinfo, cnd, pol, func(z ast.Expr) bool { return sameVar(tinfo, z, ev) })
+							return ok && isNN
+						})
+					}); nn {
+						continue // an error return
+					}
+					if def := g.LocalDef(ev); def != nil && !g.staleAt(def, x) {
+						if call, isC := unparen(def).(*ast.CallExpr); isC {
+							if h := tx.declByObj(callee(tinfo, call)); h != nil && h != fn {
+								nOK++
+								if ok, _ := idHelperValid(tx, fn, h, call, objOf(tinfo, rs.Results[0]), sp.n); !ok {
+									good = false
+								}
+							}
+						}
+					}
+				}
 				continue
 			}
 			nOK++
@@ -941,4 +1029,124 @@ func containsAnySet(info *types.Info, fn *FuncInfo, v *types.Var) (string, bool)
 		}
 	}
 	return "", false
+}
+
+// idHelperValid (C03.R2): fn returns (id, err) with err := h(…, id[:], …, text, …). h returns nil only when the text has exactly
+// n characters and the decoded id has a non-zero byte: every `return nil` of h is dominated by an edge implying
+// len(text) == E with E folding to n once len(id) is the array length (hex.EncodedLen(k) = 2k), and by an edge implying that an
+// element of the id is non-zero.
+func idHelperValid(ix *PkgIndex, fn, h *FuncInfo, call *ast.CallExpr, id types.Object, n int64) (bool, string) {
+	info := ix.Pkg.TypesInfo
+	if id == nil {
+		return false, "returned id is not a variable"
+	}
+	arr, isArr := id.Type().Underlying().(*types.Array)
+	if !isArr {
+		return false, "returned id is not an array"
+	}
+	hs := h.Obj.Type().(*types.Signature)
+	var idParam, textParam *types.Var
+	for i, a := range call.Args {
+		if i >= hs.Params().Len() {
+			break
+		}
+		if se, ok := unparen(a).(*ast.SliceExpr); ok && se.Low == nil && se.High == nil && sameVar(info, se.X, id) {
+			idParam = hs.Params().At(i)
+		}
+		if v, ok := objOf(info, a).(*types.Var); ok && isParamOf(v, fn) {
+			if b, isB := v.Type().Underlying().(*types.Basic); isB && b.Kind() == types.String {
+				textParam = hs.Params().At(i)
+			}
+		}
+	}
+	if idParam == nil || textParam == nil || assignedIn(info, h.Body(), idParam) || assignedIn(info, h.Body(), textParam) {
+		return false, "helper is not handed the id's storage and the text unchanged"
+	}
+	var env Env
+	env = func(e ast.Expr) (constant.Value, bool) {
+		c, ok := unparen(e).(*ast.CallExpr)
+		if !ok || len(c.Args) != 1 {
+			return nil, false
+		}
+		if builtinName(info, c) == "len" && sameVar(info, c.Args[0], idParam) {
+			return constant.MakeInt64(arr.Len()), true
+		}
+		if isCallTo(info, c, "encoding/hex.EncodedLen") {
+			if v, known := evalConst(info, c.Args[0], env); known && v.Kind() == constant.Int {
+				return constant.BinaryOp(v, token.MUL, constant.MakeInt64(2)), true
+			}
+		}
+		return nil, false
+	}
+	hg := ix.FG(h)
+	// variables ranging over the id's bytes
+	elems := map[types.Object]bool{}
+	inspectNoLit(h.Body(), func(m ast.Node) bool {
+		if r, ok := m.(*ast.RangeStmt); ok && r.Value != nil && sameVar(info, r.X, idParam) {
+			elems[objOf(info, r.Value)] = true
+		}
+		return true
+	})
+	isElem := func(e ast.Expr) bool {
+		if o := objOf(info, e); o != nil && elems[o] {
+			return true
+		}
+		ie, ok := unparen(e).(*ast.IndexExpr)
+		return ok && sameVar(info, ie.X, idParam)
+	}
+	nNil := 0
+	for _, y := range hg.Nodes {
+		rs, ok := y.N.(*ast.ReturnStmt)
+		if !ok || len(rs.Results) != 1 || !isNilIdent(info, rs.Results[0]) {
+			if ok && len(rs.Results) == 1 {
+				// a returned error variable that may be nil without the tests: only under err != nil
+				if v, isV := objOf(info, rs.Results[0]).(*types.Var); isV && !v.IsField() && v.Parent() != v.Pkg().Scope() {
+					nn, _ := hg.DominatedByEdges(y, func(e *GEdge) bool {
+						return edgeImplies(e, func(cnd ast.Expr, pol int) bool {
+							isNN, ok := nilCmp(info, cnd, pol, func(z ast.Expr) bool { return sameVar(info, z, v) })
+							return ok && isNN
+						})
+					})
+					if !nn && !isParamOf(v, h) {
+						return false, "helper returns an error variable that may be nil"
+					}
+				}
+			}
+			continue
+		}
+		nNil++
+		dLen, _ := hg.DominatedByEdges(y, func(e *GEdge) bool {
+			return edgeImplies(e, func(cnd ast.Expr, pol int) bool {
+				l, op, r, ok := cmpNorm(cnd, pol)
+				if !ok || op != token.EQL {
+					return false
+				}
+				for _, pr := range [][2]ast.Expr{{l, r}, {r, l}} {
+					if isLenOf(info, pr[0], func(z ast.Expr) bool { return sameVar(info, z, textParam) }) {
+						if v, known := evalConst(info, pr[1], env); known && v.Kind() == constant.Int {
+							if k, exact := constant.Int64Val(v); exact && k == n {
+								return true
+							}
+						}
+					}
+				}
+				return false
+			})
+		})
+		dNZ, _ := hg.DominatedByEdges(y, func(e *GEdge) bool {
+			return edgeImplies(e, func(cnd ast.Expr, pol int) bool {
+				l, op, r, ok := cmpNorm(cnd, pol)
+				if !ok || op != token.NEQ {
+					return false
+				}
+				zl, isZl := constInt(info, l)
+				zr, isZr := constInt(info, r)
+				return (isElem(l) && isZr && zr == 0) || (isElem(r) && isZl && zl == 0)
+			})
+		})
+		if !dLen || !dNZ {
+			return false, "a nil return of the helper is not dominated by the length and non-zero tests"
+		}
+	}
+	return nNil > 0, ""
 }
